@@ -77,6 +77,28 @@ def one_fault_run(args):
     shutil.rmtree(work, ignore_errors=True)
     return {'problems': problems, 'injected': injected, 'acked': len(acked), 'failed_writes': len(issued - acked)}
 
+def multi_output_history(rng, opts):
+    """A history whose manual compactions write SEVERAL output tables each: a 4 MiB write buffer, ~2.6 MB of
+    distinct 60 kB values flushed as one table, then level-by-level compaction with 1 MiB outputs."""
+    opts = dict(opts, write_buffer=4 << 20, max_file_size=1 << 20)
+    ops = ['open']; batches = []
+    n = rng.range(40, 48)
+    for bi in range(n):
+        ups = [(b'm%05d' % bi, '@%d:%d' % (rng.range(1, 40), bi % 256)), (b'k%05d' % bi, '@%d:%d' % (rng.range(55000, 65000), rng.below(256)))]
+        sync = rng.chance(1, 3)
+        parts = ','.join('p%s:%s' % (k3lib.khex(k), v) for k, v in ups)
+        ops.append('batch %s %d' % (parts, 1 if sync else 0))
+        batches.append({'op_index': len(ops) - 1, 'sync': sync, 'updates': ups})
+    ops += ['flush', 'layout', 'compact * *', 'layout', 'get %s -' % k3lib.khex(b'k00001'), 'get %s -' % k3lib.khex(b'k%05d' % (n - 1))]
+    # a second round over the same keys so that the next compaction merges two levels
+    for bi in range(n, n + 6):
+        ups = [(b'm%05d' % bi, '@%d:%d' % (rng.range(1, 40), bi % 256)), (b'k%05d' % (bi - n), '@%d:%d' % (rng.range(55000, 65000), rng.below(256)))]
+        parts = ','.join('p%s:%s' % (k3lib.khex(k), v) for k, v in ups)
+        ops.append('batch %s 1' % parts)
+        batches.append({'op_index': len(ops) - 1, 'sync': True, 'updates': ups})
+    ops += ['flush', 'compact * *', 'layout', 'reopen', 'get %s -' % k3lib.khex(b'k00003')]
+    return ops, batches, opts
+
 def classify(p, opts):
     if p['kind'] == 'acked-lost' and 'write' in p.get('tag', ''):
         return 'C12:acked-lost-after-transient-log-write-failure'
@@ -92,9 +114,14 @@ def run(rep, tier, seed):
     nhist = 3 if tier == 'quick' else 60
     jobs = []; hist = {'one-shot': 0, 'persistent': 0, 'ENOSPC': 0, 'EIO': 0, 'partial': 0}
     sites = {}
-    for h in range(nhist):
+    nmulti = 1 if tier == 'quick' else 4
+    for h in range(nhist + nmulti):
         opts = {'write_buffer': 65536, 'reuse_logs': rng.below(2), 'paranoid': rng.below(2), 'mmap': h % 2, 'cache': 0 if h % 2 == 0 else -1}
-        ops, batches = k3lib.gen_write_history(rng, nops=26 if tier == 'quick' else 50, reopen=True, more_gets=True)
+        multi = h >= nhist
+        if multi:
+            ops, batches, opts = multi_output_history(rng, opts)
+        else:
+            ops, batches = k3lib.gen_write_history(rng, nops=26 if tier == 'quick' else 50, reopen=True, more_gets=True)
         ops = ops + ['get %s -' % k3lib.khex(k) for k in (b'a', b'b', b'ab', b'ba', b'\xffk', b'', b'q' * 30)]
         work = os.path.join(out, 'base%d' % h)
         os.makedirs(work, exist_ok=True)
@@ -121,6 +148,19 @@ def run(rep, tier, seed):
             if name.endswith('.dbtmp') and len(must) < 24: must.add(ix)      # the CURRENT switch: few sites, always tried
         for call, ixs in by_call.items():
             if len(ixs) >= 2: hot.update(ixs[:-1])
+        if multi:
+            # every write/fsync/close/open on an output table of the multi-output compactions: the error of a
+            # NON-final output must abort the compaction just like that of the final one
+            hot = set(); tw = []
+            for (ix, what, name, call) in site_list:
+                if name.endswith('.ldb') and what in ('write', 'fsync', 'close', 'open') and call is not None and call < len(ops) and ops[call].split(' ')[0] in ('compact', 'crange'):
+                    tw.append(ix)
+            must |= set(tw if len(tw) <= 60 else [tw[i * len(tw) // 60] for i in range(60)] + tw[-6:])
+            # the write carrying the footer is the last write before each fsync of an .ldb
+            prev = None
+            for (ix, what, name, call) in site_list:
+                if what == 'fsync' and name.endswith('.ldb') and prev is not None: must.add(prev)
+                if what == 'write' and name.endswith('.ldb'): prev = ix
         ks = list(range(0, n_sites))
         limit = 90 if tier == 'quick' else 600
         rest = [k for k in ks if k not in hot]
